@@ -14,6 +14,7 @@ import re
 
 import c15_args as AR
 import c15_corpus as C
+import c15_gaps as GP
 import c15_inside as IN
 import c15_layout as L
 import c15_model as M
@@ -551,6 +552,97 @@ def argument_tie(ck, progs, rng, tier, case_fix, fixes):
 
 # --------------------------------------------------------------------------- main
 
+# --------------------------------------------------------------------------- gap families (round 5)
+
+GAP_HEADER = ("From Coq Require Import ZArith String List Bool Ascii.\n"
+              "From JMCV Require Import Model.Layout Run.Common Run.C15 Run.C15Gap.\n"
+              "Import ListNotations.\nOpen Scope string_scope.\n")
+
+
+def _ascii_text(s: str) -> str:
+    return "".join(c if M.is_ascii(c) else "?" for c in s)
+
+
+def gap_families(ck, tier):
+    """String literals whose repr() is longer than their source text (raw TAB / NBSP / soft hyphen / control, zero-width,
+    private-use characters) followed on the same line by a bracket / keyword / number / string k = 0..8 columns (and
+    more) behind the closing quote: (g) all layouts with a non-empty gap must give the output of the layout with a line
+    break there; (h) per layout the literal's recorded end, the position of the next token and the is_connected decision
+    (model and real) are tied in Coq (Run/C15Gap.v: glued iff k = 0).  -> (info, violations as replay dicts, tie problems)"""
+    fams = GP.families()
+    jobs, meta = [], []
+    for fi, f in enumerate(fams):
+        for g, v in f["variants"].items():
+            jobs.append(dict(src=v["src"], cert=C.FULL_CERT))
+            meta.append((fi, g))
+    res = []
+    for i in range(0, len(jobs), 120):
+        res += run_py(RUNNER, dict(op="trace", jobs=jobs[i:i + 120]), timeout=900)
+    by = {}
+    for (fi, g), r in zip(meta, res):
+        by[(fi, g)] = r
+    viols, cases, cmeta, accepted, no_tokens, real_decisions = [], [], [], 0, 0, 0
+    sigs = set()
+    for fi, f in enumerate(fams):
+        ref = by[(fi, GP.REFERENCE)]
+        accepted += bool(ref["ok"])
+        for g, v in f["variants"].items():
+            r = by[(fi, g)]
+            if g != "k0" and g != GP.REFERENCE and not same_result(ref, r) and not (not ref["ok"] and not r["ok"]):
+                sig = (f["follower"], f["excess"], r["ok"])
+                if sig not in sigs:
+                    sigs.add(sig)
+                    a, b = (f["variants"][GP.REFERENCE]["src"], v["src"]) if ref["ok"] else (v["src"], f["variants"][GP.REFERENCE]["src"])
+                    ra, rb = (ref, r) if ref["ok"] else (r, ref)
+                    viols.append(dict(
+                        kind="layout-changes-output", origin="string-gap-family", family=f["name"], layout=g,
+                        base=dict(src=a, cert=C.FULL_CERT), relayout=dict(src=b, cert=C.FULL_CERT),
+                        changed_runs={"gap behind the literal": repr(v["src"][v["end_col"] - 1:][:v["k"] or 1])},
+                        repr_excess_columns=f["excess"], expected="identical virtual file map",
+                        actual=(dict(error=rb["exc"], msg=rb.get("msg", "")[:600]) if not rb["ok"]
+                                else dict(differing_files=file_diff(ra["files"], rb["files"])))))
+            if v["k"] is None:
+                continue
+            # the two tokens as the top-level Tokenizer.parse call handed them over
+            top = next((c for c in r["calls"] if c["ok"] and c["string"] == v["src"]), None)
+            pair = None
+            if top:
+                for st in top["programs"]:
+                    for n, t in enumerate(st[:-1]):
+                        if t[0] == "STRING" and t[1] == v["line"] and t[2] == v["col"]:
+                            pair = (st[n + 1], t)
+            if pair is None:
+                no_tokens += 1
+                continue
+            cur, prev = pair
+            real = next((b for c, p_, b in r["conns"] if c[:3] == cur[:3] and p_[:3] == prev[:3]), None)
+            real_decisions += real is not None
+            cur = cur[:3] + [_ascii_text(cur[3])] + cur[4:]
+            prev = prev[:3] + [_ascii_text(prev[3])] + prev[4:]
+            if cur[0] not in M.TYPES:
+                no_tokens += 1
+                continue
+            rb = "None" if real is None else f"(Some {coq_bool(real)})"
+            cases.append(f"(mkGap {M.rtok_term(cur)} {M.rtok_term(prev)} {rb} ({v['line']}, {v['end_col']}) {v['k']})")
+            cmeta.append((fi, g))
+    bad, errs = eval_cases(PROP, GAP_HEADER, cases, per_file=500, checker="gap_mismatches", prefix="gap")
+    problems = [dict(kind="correspondence-file-failed", log=e) for e in errs]
+    if bad:
+        ex = []
+        for i in bad[:4]:
+            fi, g = cmeta[i]
+            ex.append(dict(family=fams[fi]["name"], gap=g, src=fams[fi]["variants"][g]["src"], case=cases[i][:400]))
+        problems.append(dict(kind="string-literal-end-correspondence-differs", n=len(bad), cases=ex,
+                             expected="_macro_end of the literal = position right after its closing quote; is_connected = (gap is empty)"))
+    if accepted < len(fams) // 2 or len(cases) < len(fams):
+        problems.append(dict(kind="gap-families-not-exercised", accepted=accepted, families=len(fams), tie_cases=len(cases)))
+    info = dict(families=len(fams), accepted_families=accepted, layouts_per_family=len(GP.GAPS), compiles=len(jobs),
+                differing=len(sigs), tie_cases=len(cases), tie_mismatches=len(bad), real_is_connected_decisions=real_decisions,
+                no_token_pair=no_tokens, literals=len(GP.literals()), followers=[n for n, _ in GP.FOLLOWERS],
+                excess_columns=sorted({f["excess"] for f in fams}))
+    return info, viols, problems
+
+
 SYMMETRIC_LAYOUTS = ("single_line", "token_per_line", "wide")
 
 
@@ -646,6 +738,9 @@ def main(tier: str) -> int:
         "re-layouts; `key=+value` / backtick-string arguments and programs with #define macros are outside this tie",
         "harness/c15_args.py: the inventory of calls whose argument text is substituted into a body (@lazy, Hardcode.*, built-ins, #define) "
         "x bracket kinds x use of the parameter (code, '..', \"..\", `..`, Hardcode.calc)",
+        "harness/c15_gaps.py: the inventory of string literals whose repr() is longer than their source text (raw TAB, NBSP, soft hyphen, "
+        "DEL, control / zero-width / private-use characters, at start / middle / end, combinations) x following token kind x gap width "
+        "k = 0..8, 12, tab, line break; the generator states where the literal ends (it wrote the source) - Run/C15Gap.v compares",
         "outside the model: what the lexer and the commands do with tokens (they may read positions only through is_connected "
         "and CustomOrder, and bracket text only by re-tokenising it - checked by the metamorphic runs, not proved)",
     ]
@@ -658,7 +753,7 @@ def main(tier: str) -> int:
         phases[name] = round(time.time() - t0, 1)
         t0 = time.time()
 
-    pr = ck.proof(extra_targets=["Run/C15.vo", "Run/C15Arg.vo"])
+    pr = ck.proof(extra_targets=["Run/C15.vo", "Run/C15Arg.vo", "Run/C15Gap.vo"])
     lap("proof")
 
     probed_fixes = fix_probes()
@@ -795,8 +890,21 @@ def main(tier: str) -> int:
         ck.violation(dict(kind="layout-changes-output", note=f"{unclassified} differing pairs beyond the classification budget",
                           layout=name, base=job_of(progs[i]), relayout=job_of(progs[i], src), expected="identical virtual file map"))
 
-    # ---- model tie
+    # ---- gap families behind string literals with a long repr() (round 5): before the ties, so that their notes can
+    # point to a concrete failing input
     lap("classification")
+    ginfo, gviols, gproblems = gap_families(ck, tier)
+    gseen, gfirst, grest = set(), [], []
+    for v in gviols:            # one of every (diagnostic / differing output, following token kind) first
+        gk = ("error" in v["actual"], v["family"].split("/")[1])
+        (grest if gk in gseen else gfirst).append(v)
+        gseen.add(gk)
+    gviols = gfirst + grest
+    for v in gviols[:6]:
+        viol_n += 1
+        ck.violation(v)
+    lap("gap_families")
+    # ---- model tie
     probe = run_py(RUNNER, dict(op="probe"), timeout=60)
     info_probe = dict(probe)
     # Token._macro_end / Token.end (fix: adjacency), the end of string literals (fix 81307c5) and the switch-label fix of
@@ -810,6 +918,11 @@ def main(tier: str) -> int:
         pb["note"] = ("the Coq model (of the repaired tokenizer / is_connected) no longer describes the code; "
                       "see the layout-changes-output replays of this run for failing inputs" if viol_n else
                       "the Coq model no longer describes the code and the metamorphic search found no failing input")
+        ck.violation(pb, no_input=True)
+    for pb in gproblems:
+        pb["note"] = ("the recorded end of a string literal / the adjacency of the token behind it is not what Model.Layout + "
+                      "Proofs.LayoutGap say; " + ("see the layout-changes-output replays of this run for failing inputs" if viol_n
+                                                  else "the gap families found no failing input"))
         ck.violation(pb, no_input=True)
     lap("tokenizer_tie")
     ainfo, aproblems = argument_tie(ck, progs, ck.rng, tier, bool(probe["case_fix"]), fixes)
@@ -845,7 +958,7 @@ def main(tier: str) -> int:
         layouts=layout_names, comments_glued_behind=lstats.get("glued_after"), comment_content_classes=lstats.get("content"),
         file_frames=lstats.get("frames"), symmetric_check=sym, differing_pairs=len(failing),
         inside_brackets=inside_cov(progs, accepted), fixes_present=probed_fixes, fixes_pinned=list(PINNED_FIXES), gated_entries_enabled=sorted(enabled), differing_by_layout=per_layout, known_pairs=known_n,
-        disagreements_checked=len(failing), corpus_note=note, phase_seconds=phases, model_tie=info, argument_text_tie=ainfo,
+        disagreements_checked=len(failing), corpus_note=note, phase_seconds=phases, model_tie=info, argument_text_tie=ainfo, string_gap_families=ginfo,
         argument_text_entries=args_cov(progs, accepted), model_pairs_evaluated=n_pairs_model,
         samples=[dict(base=progs[i]["src"][:200]) for i in accepted[:2]],
     ))
